@@ -7,6 +7,9 @@ ids = [p["id"] for p in props]
 na_path = os.path.join(V, "engine", "not_applicable.json")
 na = json.load(open(na_path)) if os.path.exists(na_path) else {}
 ready = set(json.load(open(os.path.join(V, "engine", "ready.json"))))
+# thorough commands are registered only for properties whose thorough tier was run to completion with exit 0
+# on the final tree (engine/thorough_ok.json); for the others the thorough obligations exist in props/ but are not claimed
+thorough_ok = set(json.load(open(os.path.join(V, "engine", "thorough_ok.json"))))
 checks = []; notapp = []
 for pid in ids:
     f = os.path.join(V, "props", pid + ".py")
@@ -17,7 +20,7 @@ for pid in ids:
                  level_claimed=dict(category=getattr(m, "LEVEL", "model_checking"), text=getattr(m, "TEXT", ""), design_ref=getattr(m, "DESIGN_REF", "DESIGN.md §5 " + pid)),
                  level_note=getattr(m, "NOTE", "") + " Bounds: " + getattr(m, "BOUNDS", "") + " Outside the claim: " + getattr(m, "OUT", ""),
                  technique=getattr(m, "TECHNIQUE", "cbmc bounded symbolic execution of the real C units"))
-        if getattr(m, "HAS_THOROUGH", True):
+        if getattr(m, "HAS_THOROUGH", True) and pid in thorough_ok:
             c["thorough_cmd"] = "./check %s --tier thorough" % pid
         checks.append(c)
     else:
